@@ -4,7 +4,7 @@ CONSTANTS
   NC = 2
   Levels <- LevelsQuick
   Ops <- AllOps
-  UPair <- V2r
+  UPair <- V2rq
   UTriple <- V1
 INVARIANT Emit
 CHECK_DEADLOCK FALSE
